@@ -295,6 +295,10 @@ namespace GeographicLib {
     // 25 = ceil(log_2(2e7)) -- use half circumference here because
     // northing 195e5 is a legal in the "southern" hemisphere.
     static const real eps = ldexp(real(1), -(Math::digits() - 25));
+    if (fabs(x) > real(1e12) || fabs(y) > real(1e12))
+      // Catch infinite or huge values before converting to int below (NaNs
+      // are dealt with by the callers)
+      throw GeographicErr("MGRS easting or northing is out of range");
     int
       ix = int(floor(x / tile_)),
       iy = int(floor(y / tile_)),
